@@ -42,6 +42,21 @@ def table(tier):
     rows.append(("collision-derived-lower", {"services": {"a": {"value": "Value", "getter": "getDB", "must_getter": True}, "b": {"value": "Value", "getter": "MustgetDB"}}}))
     rows.append(("collision-derived-ctx", {"services": {"a": {"value": "Value", "getter": "getDB"}, "b": {"value": "Value", "getter": "getDBInContext"}}}))
     rows.append(("collision-derived-default", {"meta": {"default_must_getter": True}, "services": {"a": {"value": "Value", "getter": "x"}, "b": {"value": "Value", "getter": "Mustx"}}}))
+    # the same decisions when the attributes arrive in two files (an explicit false in a later file is a value)
+    for first, later, merged in [
+            ({"must_getter": True}, {"must_getter": False}, False), ({"must_getter": False}, {"must_getter": True}, True),
+            ({"must_getter": True}, {"type": "*T"}, True), ({}, {"must_getter": True}, True)]:
+        base = {"services": {"svc": dict({"constructor": "NewA", "getter": "GetIt"}, **first), "plain": {"value": "Value"}}}
+        over = {"services": {"svc": dict(later)}}
+        m = {"services": {"svc": dict(base["services"]["svc"], **later), "plain": {"value": "Value"}}}
+        m["__files__"] = [base, over]
+        rows.append(("two-files", m))
+    for d1, d2, merged in [(True, False, False), (False, True, True), (True, None, True)]:
+        base = {"meta": {"default_must_getter": d1}, "services": {"svc": {"constructor": "NewA", "getter": "GetIt"}, "plain": {"value": "Value"}}}
+        over = {"meta": ({"default_must_getter": d2} if d2 is not None else {"pkg": "main"})}
+        m = {"meta": dict({"default_must_getter": merged}, **({"pkg": "main"} if d2 is None else {})), "services": dict(base["services"])}
+        m["__files__"] = [base, over]
+        rows.append(("two-files-default", m))
     rows.append(("collision-derived2", {"meta": {"default_must_getter": True}, "services": {"a": {"value": "Value", "getter": "GetA"}, "b": {"value": "Value", "getter": "GetB"}, "c": {"value": "Value"}}}))
     return rows
 
@@ -100,7 +115,7 @@ def run(tier, seed, replay):
     rows = table(tier)
     specs = []
     for k, (kind, cfg) in enumerate(rows):
-        sp = common.mk_spec(k, [cfg], keep_out=True)
+        sp = common.mk_spec(k, cfg.pop("__files__", None) or [cfg], keep_out=True)
         sp["what"] = [kind]
         sp["cfg"] = cfg
         specs.append(sp)
